@@ -1211,8 +1211,12 @@ fn random_runs(r: &mut Rng, n: u64, out: &mut Out, st: &mut Stats) {
     }
 }
 
-fn random_raw(r: &mut Rng, n: u64, n_cond: u64, n_deep: u64, out: &mut Out, st: &mut Stats) {
+fn random_raw(r: &mut Rng, n: u64, n_cond: u64, n_deep: u64, n_reinc: u64, out: &mut Out, st: &mut Stats) {
     let mut kinds = Hist::default();
+    for _ in 0..n_reinc {
+        let case = rawgen::G::new(r, &mut kinds).reinclude_case();
+        do_request(&rawgen::request_of(&case), out, st);
+    }
     for i in 0..(n + n_cond + n_deep) {
         let case = {
             let mut g = rawgen::G::new(r, &mut kinds);
@@ -1285,7 +1289,7 @@ pub fn run(args: &Args, out: &mut Out) {
     exhaustive(max_len, shard, out, &mut st);
     random_conds(&mut r.fork(), share(n_cond), out, &mut st);
     random_runs(&mut r.fork(), share(n_run), out, &mut st);
-    random_raw(&mut r.fork(), share(n_raw), share(n_raw / 2), share(n_raw / 400), out, &mut st);
+    random_raw(&mut r.fork(), share(n_raw), share(n_raw / 2), share(n_raw / 400), share(n_raw / 4), out, &mut st);
     out.stat(&format!(
         "{{\"exhaustive_max_len\":{},\"ops\":{},\"outcome\":{},\"oracle\":{},\"max_nesting\":{},\"lines_kept\":{},\"kinds\":{},\"cond_value\":{},\"cond_operators\":{},\"cond_depth\":{},\"whitespace_style\":{},\"raw_verdict\":{}}}",
         max_len,
